@@ -76,15 +76,30 @@ def case_hash(obj: Any) -> str:
 
 
 class _Lock:
+    """Workspace lock (flock on lean/.lake/verif.lock), re-entrant within one process so that
+    check.py can hold it across translate + build + audit (otherwise a concurrent check run
+    against another ACN_REPO could regenerate Gen/*.lean between our translate and our build)."""
+    _depth = 0
+    _file = None
+
     def __enter__(self):
-        os.makedirs(os.path.join(LEAN, ".lake"), exist_ok=True)
-        self.f = open(os.path.join(LEAN, ".lake", "verif.lock"), "w")
-        fcntl.flock(self.f, fcntl.LOCK_EX)
+        if _Lock._depth == 0:
+            os.makedirs(os.path.join(LEAN, ".lake"), exist_ok=True)
+            _Lock._file = open(os.path.join(LEAN, ".lake", "verif.lock"), "w")
+            fcntl.flock(_Lock._file, fcntl.LOCK_EX)
+        _Lock._depth += 1
         return self
 
     def __exit__(self, *a):
-        fcntl.flock(self.f, fcntl.LOCK_UN)
-        self.f.close()
+        _Lock._depth -= 1
+        if _Lock._depth == 0:
+            fcntl.flock(_Lock._file, fcntl.LOCK_UN)
+            _Lock._file.close()
+            _Lock._file = None
+
+
+def workspace_lock():
+    return _Lock()
 
 
 def run_translate() -> Tuple[bool, str]:
@@ -133,9 +148,31 @@ def lean_files() -> List[str]:
     return sorted(out)
 
 
-def grep_forbidden() -> List[str]:
+_IMPORT = re.compile(r"^\s*(?:public\s+)?import\s+(\S+)", re.M)
+
+
+def local_closure(modules: List[str]) -> List[str]:
+    """Files of this workspace in the transitive import closure of `modules`."""
+    seen: Dict[str, str] = {}
+    todo = list(modules)
+    while todo:
+        m = todo.pop()
+        if m in seen:
+            continue
+        path = os.path.join(LEAN, *m.split(".")) + ".lean"
+        if not os.path.exists(path):
+            continue
+        seen[m] = path
+        for imp in _IMPORT.findall(strip_lean_comments(open(path).read())):
+            if imp.split(".")[0] in ("AcnModel", "AcnProofs", "Drivers"):
+                todo.append(imp)
+    return sorted(seen.values())
+
+
+def grep_forbidden(modules: Optional[List[str]] = None) -> List[str]:
+    """Forbidden tokens in the Lean sources the given modules depend on (all sources if None)."""
     hits = []
-    for path in lean_files():
+    for path in (local_closure(modules) if modules else lean_files()):
         src = strip_lean_comments(open(path).read())
         for m in FORBIDDEN.finditer(src):
             hits.append(f"{os.path.relpath(path, LEAN)}: {m.group(0).strip()}")
